@@ -413,3 +413,28 @@ func (p *Program) PointConstant(role string) *ssa.Global {
 	}
 	return nil
 }
+
+// FieldSteps resolves a (canonical) field name of a struct type to the sequence of field indices that
+// reaches it, looking through embedded structs (`type projCached struct { cachedCoords; Z Element }`).
+func FieldSteps(t types.Type, name string) []int {
+	if i := FieldIndex(t, name); i >= 0 {
+		return []int{i}
+	}
+	st, ok := t.Underlying().(*types.Struct)
+	if !ok {
+		return nil
+	}
+	for i := 0; i < st.NumFields(); i++ {
+		f := st.Field(i)
+		if !f.Embedded() {
+			continue
+		}
+		if _, isStruct := f.Type().Underlying().(*types.Struct); !isStruct {
+			continue
+		}
+		if sub := FieldSteps(f.Type(), name); sub != nil {
+			return append([]int{i}, sub...)
+		}
+	}
+	return nil
+}
